@@ -70,6 +70,12 @@ def run_c01(ck, ctx):
             if len(pk) >= tgt:
                 # cut at an HBF boundary at or after tgt is not conforming-preserving in general; keep whole stream
                 pass
+        elif i % 5 == 1:   # a page that fills a complete 8 KiB CRU page exactly (payload 8128 bytes), or one word less / more
+            df = (i // 5) % 2 * 2
+            pk, meta = G.conforming_stream(R, nlinks=R.randint(1, 2), df=df, max_hbf=3)
+            full = 508 if df == 0 else 812
+            grown = G.fill_page(pk, R.choice([full, full, full - 1, full + 1]))
+            meta = dict(meta, grown_page=grown)
         else:
             pk, meta = G.conforming_stream(R)
         data = G.encode(pk)
